@@ -9,6 +9,7 @@ import (
 	"io"
 	"net"
 	"sync"
+	"sync/atomic"
 )
 
 // fakeORGB is a minimal OpenRGB SDK server: one keyboard controller with a given LED list; it
@@ -23,6 +24,10 @@ type fakeORGB struct {
 	frames   [][][3]int
 	cond     *sync.Cond
 	conns    int
+	// mode: "" = the controller is listed; "nocontroller" = the server lists no controller at all; "other" = it
+	// lists one at another location (the device keeps searching for its own for two seconds)
+	mode string
+	reqs int64 // requests received
 }
 
 func newFakeORGB(name, location string, leds []string) (*fakeORGB, error) {
@@ -61,7 +66,11 @@ func (s *fakeORGB) deviceData() []byte {
 	var b bytes.Buffer
 	binary.Write(&b, binary.LittleEndian, uint32(0)) // data size (patched below)
 	binary.Write(&b, binary.LittleEndian, uint32(5)) // type: keyboard
-	for _, str := range []string{s.name, "verif keyboard", "1.0", "0001", "HID: " + s.location} {
+	loc := s.location
+	if s.mode == "other" {
+		loc = "/dev/hidraw99"
+	}
+	for _, str := range []string{s.name, "verif keyboard", "1.0", "0001", "HID: " + loc} {
 		putString(&b, str)
 	}
 	binary.Write(&b, binary.LittleEndian, uint16(1)) // one mode
@@ -123,10 +132,11 @@ func (s *fakeORGB) serve(c net.Conn) {
 		if _, err := io.ReadFull(c, body); err != nil {
 			return
 		}
+		atomic.AddInt64(&s.reqs, 1)
 		switch cmd {
 		case 0: // controller count
 			out := make([]byte, 4)
-			binary.LittleEndian.PutUint32(out, 1)
+			binary.LittleEndian.PutUint32(out, map[bool]uint32{true: 0, false: 1}[s.mode == "nocontroller"])
 			if s.reply(c, dev, cmd, out) != nil {
 				return
 			}
